@@ -58,7 +58,4 @@ theorem collective_uses_simulation_cell : Gen.collectiveUsesSimulationCell = tru
 theorem collective_forwards_arguments : Gen.collectiveForwardsArguments = true := by
   rfl
 
-theorem window_from_attempt_frequency : Gen.windowFromAttemptFrequency = true := by
-  rfl
-
 end G.C12Win
